@@ -1,6 +1,7 @@
 package gen
 
 import (
+	"encoding/json"
 	"errors"
 	"time"
 )
@@ -17,6 +18,12 @@ type opaqueStruct struct {
 type namedMap map[string]interface{}
 type namedSlice []interface{}
 
+// defined types whose underlying kind is a JSON scalar kind: still not what encoding/json
+// produces, so still opaque (a filter literal 1.5 does not match namedFloat(1.5))
+type namedFloat float64
+type namedString string
+type namedBool bool
+
 var (
 	opStructPtr = &opaqueStruct{A: 7, B: "p"}
 	opFunc      = func() {}
@@ -32,6 +39,7 @@ var (
 	opMapAny    = map[interface{}]interface{}{1: 2}
 	opMapList   = []map[string]interface{}{{"a": 1.0}, {"a": 2.0, "b": "x"}}
 	opIface     = interface{}(map[string]interface{}{"a": 1.0})
+	opRaw       = json.RawMessage(`{"a":1}`)
 )
 
 // OpaqueTags lists the catalogue.
@@ -40,6 +48,7 @@ var OpaqueTags = []string{
 	"namedMap", "[]int", "[]string", "namedSlice", "[2]int", "int", "int64", "uint8",
 	"float32", "complex128", "func()", "chan int", "[]byte", "error", "time.Duration",
 	"map[interface{}]interface{}", "[]map[string]interface{}", "*interface{}", "nil*interface{}", "nilmap", "nilslice",
+	"namedFloat", "namedString", "namedBool", "json.RawMessage",
 }
 
 // OpaqueValue builds the Go value for a tag.
@@ -99,6 +108,14 @@ func OpaqueValue(tag string) interface{} {
 		return map[string]interface{}(nil) // a JSON-typed container that happens to be nil
 	case "nilslice":
 		return []interface{}(nil)
+	case "namedFloat":
+		return namedFloat(1)
+	case "namedString":
+		return namedString("a")
+	case "namedBool":
+		return namedBool(true)
+	case "json.RawMessage":
+		return opRaw
 	}
 	panic("harness bug: unknown opaque tag " + tag)
 }
